@@ -171,7 +171,7 @@ def main():
     rng = random.Random((seed, prop, tier).__repr__())
     ctx = {"tier": tier, "seed": seed, "rng": rng, "jobs": args.jobs, "prop": prop,
            "run_impl": lambda cases, hashseeds, timeout=30: run_impl_parallel(prop, cases, hashseeds, timeout, args.jobs),
-           "lean": common.lean_batch, "replay": None}
+           "lean": (lambda ops, timeout=None, jobs=16: common.lean_batch(ops, timeout or (600 if tier == "quick" else 3600), jobs)), "replay": None}
     if args.replay:
         ctx["replay"] = json.load(open(args.replay))
     try:
